@@ -39,6 +39,8 @@ class EventDataframeDataReader(AbstractDataframeDataReader):
         self.event_time_name = event_time_name
         self.event_bool_name = event_bool_name
         self.nb_events = nb_events
+        # what the user asked for (`nb_events` is completed from the data at each read)
+        self._requested_nb_events = nb_events
 
     @staticmethod
     def _check_headers(columns: list[str]) -> None:
@@ -96,6 +98,9 @@ class EventDataframeDataReader(AbstractDataframeDataReader):
         df: pd.DataFrame
             Dataframe with clean information
         """
+
+        # forget the number of events deduced from a previously read dataframe
+        self.nb_events = self._requested_nb_events
 
         # [SPECIFIC] check_available_data
         df_event = df.copy(deep=True)
